@@ -649,10 +649,7 @@ func c09Property(t *rapid.T, st *Stats) {
 			}
 			_ = sa.Close()
 			nontrivial := interesting[k] && len(run.snaps) > 1 && len(before) > 0
-			st.Case([]string{hist, fmt.Sprint(k), fmt.Sprint(mode)}, nontrivial, fmt.Sprintf("mode-%d", mode), map[bool]string{true: "in-collection", false: "in-request"}[isGC])
-			if len(st.Samples) < 3 && nontrivial {
-				st.Samples = append(st.Samples, append(append([]string{}, opsDesc...), trace...))
-			}
+			st.CaseSample([]string{hist, fmt.Sprint(k), fmt.Sprint(mode)}, append(append([]string{}, opsDesc...), trace...), nontrivial, fmt.Sprintf("mode-%d", mode), map[bool]string{true: "in-collection", false: "in-request"}[isGC])
 			_ = os.RemoveAll(rk)
 			_ = os.RemoveAll(ra)
 			vfs.Forget(rk)
